@@ -756,6 +756,14 @@ class VhdlScope:
             # since they are not allowed in vhdl
             name = name.strip("_")
 
+            # adjacent underscores are not allowed either
+            while "__" in name:
+                name = name.replace("__", "_")
+
+            if len(name) == 0:
+                name = fallback if fallback is not None else "obj"
+
+
             # avoid name collisions by appending counter to names
             if name.lower() in used_names:
                 cnt = 1
